@@ -255,9 +255,25 @@ CLAIMS = [
         'note': 'Bounded enumeration; trusted: numpy. Empty data (all values equal to the default) excluded.',
         'design_ref': 'DESIGN.md section 4 C18',
     },
+    {
+        'property_id': 'C11',
+        'level': 'other',
+        'technique': 'contract-based verification: key contract between __init__ and get_config of every class decided on the '
+                     'AST for all instances; real get_config/from_config executed on enumerated arguments (Keras stub); bounded '
+                     'native round trips under the real Keras labelled bounded',
+        'text': 'For all instances: every get_config key is a constructor parameter, every constructor parameter is returned, each '
+                'value comes from the attribute set from that parameter, and premade.get_custom_objects maps every public class to '
+                'itself (or the owning module scopes it). Per enumerated argument tuple: rebuild succeeds with equal config; rebuilt '
+                'layers with the same weights give structurally identical symbolic outputs. Bounded: the same round trips and a '
+                'functional-model config round trip under the real Keras. Three genuine defects repaired (misspelled '
+                'range_dominances key, missing missing_output_value, CDF not registered). NOT decided: model.save/load_model and '
+                '"at any point of training" (histories, crash points).',
+        'note': 'Trusted: Python ast, Keras stub / real Keras (de)serialisation. Argument tuples are enumerated, not exhaustive.',
+        'design_ref': 'DESIGN.md section 4 C11',
+    },
 ]
 
 _PENDING = 'check not built yet in this session (planned, see DESIGN.md section 4); not claimed until its check exists'
 NOT_APPLICABLE = [
-    {'property_id': 'C%02d' % i, 'reason': _PENDING} for i in range(2, 21) if i not in (2, 4, 5, 6, 7, 8, 9, 10, 12, 13, 14, 15, 16, 17, 18, 19, 20)
+    {'property_id': 'C%02d' % i, 'reason': _PENDING} for i in range(2, 21) if i not in (2, 4, 5, 6, 7, 8, 9, 10, 11, 12, 13, 14, 15, 16, 17, 18, 19, 20)
 ]
